@@ -137,8 +137,13 @@ def tsresol_byte(tsresol):
     return k if kind == "dec" else 0x80 | k
 
 
+BIG_UNRELATED = False      # set by the end-to-end oracle of C12: the third unrelated block of a file is then longer than any announced snaplen + 4 KiB
+
+
 def unrelated(e, i):
     """The i-th unrelated block (cycles through NRB, ISB, custom copy/no-copy, an unknown type, SPB-free)."""
+    if BIG_UNRELATED and i == 2:
+        return custom(e, data=b"\xab" * 300000)      # an unrelated block may have any length (its own length field is all that counts)
     kinds = [lambda: nrb(e), lambda: isb(e, ticks=12345 + i), lambda: custom(e, data=b"x" * (i % 7)),
              lambda: custom(e, copyable=False, opts=opt(e, 1, b"note") + endofopt(e)),
              lambda: block(e, 0x80000001 + (i % 3), b"local use " + bytes([i % 256])),
